@@ -31,6 +31,7 @@ class Lib:
         'TrySendError': ('Full', 'Closed'),
         'Ordering': ('Less', 'Equal', 'Greater'),
         'Poll': ('Ready', 'Pending'),
+        'RecursiveMode': ('Recursive', 'NonRecursive'),
     }
 
     def resolve_ctor(self, segs):
@@ -1485,14 +1486,19 @@ class Lib:
             return s == ''
         if method == 'len':
             return len(s.encode())
-        if method in ('to_string', 'to_owned', 'into_string', 'to_string_lossy', 'display', 'to_lowercase') or method in ('trim',):
+        if method in ('to_string', 'to_owned', 'into_string', 'display', 'to_lowercase') or method in ('trim',):
             if method == 'trim':
                 return s.strip()
             if method == 'to_lowercase':
                 return s.lower()
             return s
         if method == 'to_str':
+            # OS strings that are not valid UTF-8 are represented with surrogate escapes (as Python does)
+            if any(0xDC80 <= ord(c) <= 0xDCFF for c in s):
+                return NONE
             return some(s)
+        if method == 'to_string_lossy':
+            return ''.join('\ufffd' if 0xDC80 <= ord(c) <= 0xDCFF else c for c in s)
         if method == 'push_str':
             I.store_at(ref, s + a0)
             return UNIT
